@@ -16,19 +16,24 @@ def _c15_order(bases, preops):
         out += [{0: b, 1: p, 2: part, 3: n} for p in preops for part in range(n)]
     return out
 
-def _c15_labels(cells, kinds):
+def _c15_labels(cells, kinds, hs=(1, 2, 3, 4)):
     # kinds with a free symbolic start vertex a (0, 2) are the expensive ones: one query per halfface abc; the others: all four in one
     out = []
     for (b, c) in cells:
         for k in kinds:
-            out += [{0: b, 1: c, 2: k, 3: h} for h in ([1, 2, 3, 4] if k in (0, 2) else [0])]
+            out += [{0: b, 1: c, 2: k, 3: h} for h in (list(hs) if k in (0, 2) else [0])]
     return out
 
 def _c15_all_cells():
     return [(b, c) for b in sorted(_C15_COUNTS) for c in range(_C15_COUNTS[b][3])]
 
 def _c15_adds(bases):
-    return [{0: b, 1: ch} for b in bases for ch in range(3)]
+    # 24 cases; 8 per query on the single tet, 4 per query on the larger bases
+    out = []
+    for b in bases:
+        per = 8 if b == _T_ONE else 4
+        out += [{0: b, 1: ch, 2: per} for ch in range(24 // per)]
+    return out
 
 def _c15_ops(bases, modes, ops):
     out = []
@@ -56,7 +61,7 @@ def _c15_deep(bases, modes, hes=None):
 PROPS["C15"] = dict(
   jobs=[
     dict(name="c15-order", harness="C15_order.cpp", entries=["harness_c15_order"], units=_C15_UNITS, unwind=40, checks="none", object_bits=13,
-         shards={"quick": _c15_order(range(5), [0]) + _c15_order([_T_FACE], [1, 4, 5, 6]),
+         shards={"quick": _c15_order(range(5), [0]) + _c15_order([_T_FACE], [1, 4, 6]),
                  "thorough": _c15_order(range(5), range(8))},
          timeout={"quick": 300, "thorough": 900}, mem_gb=4,
          bounds=_C15_BASES + ", optionally after one swap_{cell,face,edge,vertex}_indices(first,last) or delete_cell(0) in immediate / deferred / fast mode; "
@@ -64,7 +69,7 @@ PROPS["C15"] = dict(
                 "get_cell_vertices(ch,vh) / vertex_opposite_halfface / get_halfface_vertices(hfh,vh) and the halfedge argument heh (any halfedge index) of "
                 "get_cell_vertices(hfh,heh) / get_halfface_vertices(hfh,heh); tv_iter / tet_vertices compared element-wise with the brute-force tuple"),
     dict(name="c15-labels", harness="C15_labels.cpp", entries=["harness_c15_labels"], units=_C15_UNITS, unwind=40, checks="none", object_bits=13,
-         shards={"quick": _c15_labels([(_T_ONE, 0)], range(6)) + _c15_labels([(_T_FACE, 1)], [0, 4]) + _c15_labels([(_T_RING, 2)], [2]),
+         shards={"quick": _c15_labels([(_T_ONE, 0)], range(6)) + _c15_labels([(_T_FACE, 1)], [0, 4], hs=(1, 3)) + _c15_labels([(_T_RING, 2)], [2], hs=(2, 4)),
                  "thorough": _c15_labels(_c15_all_cells(), range(6))},
          timeout={"quick": 300, "thorough": 900}, mem_gb=6,
          bounds=_C15_BASES + "; shard = (base, cell, constructor kind of TetTopology: (ch,abc,a) (ch,abc) (abc,a) (abc) (ch,a) (ch)); all 4 halffaces abc of the cell enumerated (one per shard for the kinds with a symbolic start vertex); "
@@ -74,10 +79,10 @@ PROPS["C15"] = dict(
     dict(name="c15-adds", harness="C15_shape.cpp", entries=["harness_c15_adds"], units=_C15_UNITS, unwind=40, checks="none", object_bits=13,
          shards={"quick": _c15_adds([_T_ONE, _T_FACE]), "thorough": _c15_adds(range(5))},
          timeout={"quick": 300, "thorough": 900}, mem_gb=4,
-         bounds=_C15_BASES + "; symbolic selector over 24 constant add_face / add_cell / add_halfface / add_halfedge calls (8 per query): wrong valence (2,4 / 3,5), failing topology "
+         bounds=_C15_BASES + "; symbolic selector over 24 constant add_face / add_cell / add_halfface / add_halfedge calls (4-8 per query): wrong valence (2,4 / 3,5), failing topology "
                 "check (open loop, open surface, halfface twice, halfface already taken, repeated vertex), accepted vertex- and handle-based adds across a boundary face"),
     dict(name="c15-ops", harness="C15_shape.cpp", entries=["harness_c15_ops"], units=_C15_UNITS, unwind=40, checks="none", object_bits=13,
-         shards={"quick": _c15_ops([_T_ONE], [0], [OP_DEL_V, OP_DEL_E]) + _c15_ops([_T_ONE], [1], [OP_DEL_E]) + _c15_ops([_T_ONE], [2], [OP_DEL_F]) + _c15_ops([_T_FACE], [0], [OP_SWAP_C, OP_DEL_C]),
+         shards={"quick": _c15_ops([_T_ONE], [0], [OP_DEL_V]) + _c15_ops([_T_ONE], [1], [OP_DEL_E]) + _c15_ops([_T_ONE], [2], [OP_DEL_F]) + _c15_ops([_T_FACE], [0], [OP_SWAP_C, OP_DEL_C]),
                  "thorough": _c15_ops([_T_ONE, _T_FACE], range(4), [OP_DEL_V, OP_DEL_E, OP_DEL_F, OP_DEL_C]) + _c15_ops([_T_ONE], [0], [OP_SWAP_V, OP_SWAP_E, OP_SWAP_F]) + _c15_ops([_T_FACE], [0], [OP_SWAP_C])},
          timeout={"quick": 300, "thorough": 900}, mem_gb=4,
          bounds="K=1 inherited operation (delete_vertex/edge/face/cell for every entity, swap_*_indices for every ordered pair; then collect_garbage in deferred mode) chosen by a symbolic "
